@@ -44,7 +44,9 @@ echo "$P-$I applies=$applies builds=$builds suite=$suite demo_with=$demo_with de
 python3 - "$P" "$I" "$applies" "$builds" "$suite" "$demo_with" "$demo_without" "$caught" "$rules" <<'PY'
 import json,sys
 P,I,applies,builds,suite,dw,dwo,caught,rules=sys.argv[1:10]
-json.dump({"property":P,"index":int(I),"patch":"patch.diff","demonstration":"demo_test.go.txt (place as leader/zz_demo_test.go)",
+import subprocess
+commit=subprocess.run("git -C /repo log --format=%h -1",shell=True,capture_output=True,text=True).stdout.strip()
+json.dump({"property":P,"index":int(I),"repo_commit":commit,"patch":"patch.diff","demonstration":"demo_test.go.txt (place as leader/zz_demo_test.go)",
  "confirmed":{"patch_applies":applies,"builds":builds,"unedited_suite_with_change":suite,"demo_with_change":dw,"demo_on_clean_tree":dwo},
  "what_it_needs":"see notes.md (written by the sub-agent that produced the change)",
  "ran":["git apply patch.diff in a scratch copy of /repo","go build ./...","/verif/tools/suite.sh <copy> (155 baseline tests)","go test -run 'Demo|ZZ' ./leader/ with and without the change","/verif/bin/electlint -p all -repo <copy>"],
